@@ -5,7 +5,7 @@ C01_CLASSES = {"wrong-count", "empty-cycle", "foreign-edge", "repeated-edge", "n
 C02_CLASSES = {"return-mismatch", "not-minimum", "weight-vector", "unweighable-output"}
 
 RULE = ("every labelled simple graph on exactly n vertices (all 2^(n(n-1)/2) edge subsets, edges inserted in "
-        "lexicographic order; additionally with every edge / every second edge handed to add_edge in reversed orientation) x every function E->alphabet (U={1}, A2={1,2}, A3={1,2,3}, D={.25,.5,.75}) x each of "
+        "lexicographic order; additionally with every edge / every second edge handed to add_edge in reversed orientation) x every function E->alphabet (U={1}, A2={1,2}, A3={1,2,3}, D={.25,.5,.75}; PM / PM2 = all m! assignments of the distinct weights 1..m / 2^0..2^(m-1)) x each of "
         "mcb_sva_signed / mcb_sva_fvs_trees / mcb_sva_iso_trees, plus named families with all weightings; oracle = "
         "all simple cycles + GF(2) greedy reference (Horton-collection reference above cycle space dimension 15); a fixed menu of pseudo-random sparse graphs (deterministic generator, enumerated completely). evaluations = algorithm runs; distinct_nontrivial = distinct "
         "(graph, weighting, weight type) inputs whose cycle space dimension is >= 1 (enumeration never repeats an input)")
@@ -25,6 +25,7 @@ def runs(tier):
         ("G(5) x A3, double", [["--n", 5, "--alpha", "A3"]]),
         ("edge orientation (source/target as handed to add_edge) reversed / alternating: G(0..4) x A3, G(5) x A2", [["--n", n, "--alpha", "A3", "--orient", o] for n in range(2, 5) for o in (1, 2)] + [["--n", 5, "--alpha", "A2", "--orient", o] for o in (1, 2)]),
         ("G(6) x U, double", [["--n", 6, "--alpha", "U"]]),
+        ("G(5) with at most 7 edges x PM2 (every assignment of the distinct weights 2^0..2^(m-1): unique optimum, no ties that could mask a lost candidate)", [["--n", 5, "--alpha", "PM2", "--max-m", 7]]),
         ("blob grammar K=3,T=2 x patterns U, M2, M3", [["--grammar", "blobs:3:2", "--alpha", a] for a in ("U", "M2", "M3")]),
         ("dense families x U", [["--families", "K:6,K:7,wheel:6,prism:4,petersen,Kb:3:4,grid:3:4,cube:3", "--alpha", "U"]]),
         ("G(6) x A2, graphs with >= 12 edges, mcb_sva_signed (support vectors with several entries: hidden-edge heuristic)", [["--n", 6, "--alpha", "A2", "--min-m", 12, "--variants", "signed"]]),
@@ -36,6 +37,8 @@ def runs(tier):
         return q
     t = q + [
         ("G(5) x A3, int", [["--n", 5, "--alpha", "A3", "--wtype", "int"]]),
+        ("G(5) with at most 8 edges x PM (every assignment of the distinct weights 1..m), G(5) with 8 edges x PM2, G(6) with at most 6 edges x PM2",
+         [["--n", 5, "--alpha", "PM", "--max-m", 8], ["--n", 5, "--alpha", "PM2", "--min-m", 8, "--max-m", 8], ["--n", 6, "--alpha", "PM2", "--max-m", 6]]),
         ("G(5) x D, double", [["--n", 5, "--alpha", "D"]]),
         ("blob grammar K=3,T=3 x patterns U, M2", [["--grammar", "blobs:3:3", "--alpha", a] for a in ("U", "M2")]),
         ("families x A2", [["--families", "wheel:5,wheel:6,prism:3,prism:4,Kb:3:3,cube:3,grid:3:3,petersen,Kb:2:5,grid:2:5", "--alpha", "A2"]]),
